@@ -33,9 +33,26 @@ def build_frame(ftype: int, seg: int, dest: bytes, src: bytes, control: int, inf
     return body + fcs16_octets(body)
 
 
+_EMBEDDED = None
+
+
+def _embedded_frames():
+    global _EMBEDDED
+    if _EMBEDDED is None:
+        _EMBEDDED = [build_frame(0xA, 0, b"\x03", b"\x21", 0x13, b"\x01\x02\x03"), build_frame(0xA, 0, b"\x01", b"\x02\x01", 0x10, None), build_frame(0xA, 1, b"\x41", b"\x03", 0x30, b"hello")]
+    return _EMBEDDED
+
+
 def expand_payload(mode: str, length: int, seed: int, literal: bytes = b"") -> bytes:
     if mode == "literal":
         return literal
+    if mode == "embedded":
+        # an information field that itself contains complete, valid frames between flags (a frame in a frame)
+        rnd0 = random.Random(seed)
+        parts = [rnd0.randbytes(rnd0.randrange(0, 6))]
+        for _ in range(1 + seed % 2):
+            parts += [bytes([FLAG]), rnd0.choice(_embedded_frames()), bytes([FLAG]), rnd0.randbytes(rnd0.randrange(0, 6))]
+        return b"".join(parts)
     rnd = random.Random(seed)
     if mode == "dense":
         return bytes(rnd.choice(DENSE) for _ in range(length))
@@ -68,7 +85,7 @@ _len_classes = st.one_of(
 
 @st.composite
 def payload_spec_st(draw, big=True):
-    mode = draw(st.sampled_from(["literal", "literal", "dense", "random", "dense", "ascii", "zero"]))
+    mode = draw(st.sampled_from(["literal", "literal", "dense", "random", "dense", "ascii", "zero", "embedded"]))
     if mode == "literal":
         lit = draw(st.one_of(st.binary(min_size=0, max_size=24), st.lists(st.sampled_from(list(DENSE)), max_size=12).map(bytes)))
         return ("literal", len(lit), 0, lit)
@@ -99,7 +116,11 @@ def frame_spec_st(draw, big=True, header_only_weight=1, long_addr=False):
             info = expand_payload(mode, min(length, room), seed)
         if big and draw(st.integers(0, 30)) == 30:
             info = expand_payload("dense" if mode == "dense" else "random", room, seed)  # exactly the 2047-octet maximum
-    return {"ftype": ftype, "seg": seg, "dest": dest, "src": src, "control": control, "info": info}
+    spec = {"ftype": ftype, "seg": seg, "dest": dest, "src": src, "control": control, "info": info}
+    if info and len(info) >= 2 and draw(st.integers(0, 11)) == 11:
+        # the frame's very last octet (second FCS octet) is a flag or an escape octet - also for 2047-octet frames
+        spec = force_last_octet(spec, draw(st.sampled_from([FLAG, ESC]))) or spec
+    return spec
 
 
 # Frames whose check sequences have special values (found by a one-off search, verified by build_frame at import):
@@ -113,6 +134,25 @@ SPECIAL_SPECS = [
     {"ftype": 0xA, "seg": 0, "dest": b"\x01", "src": b"\x02\x01", "control": 0x10, "info": b"\xe6\x00IM"},
     {"ftype": 0xA, "seg": 0, "dest": b"\x01", "src": b"\x02\x01", "control": 0x10, "info": b"\xe6\x01\xc0\\"},
 ]
+
+
+def force_last_octet(spec, target: int):
+    """Vary the last two information octets until the frame's last octet (second FCS octet) equals target. Returns spec' or None."""
+    from vlib.ref_fcs import fcs_register, fcs_step
+
+    info = spec["info"]
+    if not info or len(info) < 2:
+        return None
+    frame = frame_from_spec(spec)
+    reg0 = fcs_register(frame[:-4])  # everything before the two octets that are varied
+    for x in range(65536):
+        r = fcs_step(fcs_step(reg0, x >> 8), x & 0xFF) ^ 0xFFFF
+        if (r >> 8) == target:
+            out = dict(spec)
+            out["info"] = info[:-2] + bytes([x >> 8, x & 0xFF])
+            assert frame_from_spec(out)[-1] == target
+            return out
+    return None
 
 
 def frame_from_spec(spec) -> bytes:
